@@ -26,6 +26,7 @@ RULES = {
     "C13.R3": lambda ctx: encrules.optional_keys(ctx, "C13.R3"),
     "C13.R4": lambda ctx: bldrules.into_sourcemap(ctx, "C13.R4"),
     "C13.R4b": lambda ctx: bldrules.plain_setters(ctx, "C13.R4b"),
+    "C13.R4c": lambda ctx: bldrules.builder_calls(ctx, "C13.R4c"),
     "C13.R5": lambda ctx: bldrules.contents_resize(ctx, "C13.R5"),
     "C13.R5c": lambda ctx: bldrules.contents_predicates(ctx, "C13.R5c"),
     "C13.R5b": lambda ctx: bldrules.add_with_id(ctx, "C13.R5b"),
